@@ -6,13 +6,14 @@
 From AV Require Import Model.Schema Model.Diff Spec.C06 Proofs.SchemaProof Proofs.C06Proof.
 
 (* comparing a database created from A with A reports nothing, for every compare_type / compare_server_default *)
-Theorem C06_quiet_partial : forall g A, wf_schemab A = true -> defaults_ok A = true -> diff g (reflect_sqlite A) A = [].
+Theorem C06_quiet_partial : forall g A, wf_schemab A = true -> defaults_ok A = true -> no_unnamed_uq A = true -> diff g (reflect_sqlite A) A = [].
 Proof. exact diff_quiet. Qed.
 Print Assumptions C06_quiet_partial.
 
 (* applying the first comparison's operations to db(A) yields a database on which the second comparison is empty
    (A's own defaults are unrestricted: whatever they are, they are replaced or kept consistently) *)
 Theorem C06_converge_partial : forall g A B, wf_schemab A = true -> wf_schemab B = true -> defaults_ok B = true -> fk_names_ok A B = true ->
+  no_unnamed_uq B = true ->     (* "all constraints named": see C06_unnamed_uq_outside below for what happens otherwise *)
   diff g (reflect_sqlite (apply_ops (diff g (reflect_sqlite A) B) A)) B = [].
 Proof. exact diff_converge. Qed.
 Print Assumptions C06_converge_partial.
@@ -20,7 +21,7 @@ Print Assumptions C06_converge_partial.
 Open Scope N_scope.
 (* witnesses: one table, one VARCHAR column whose server default is the Python string "(a)", resp. "", resp. "it's" *)
 Definition bad_schema (s:list N) : schema :=
-  [mkTable 0 [mkCol 0 (mkTy 0 []) false true None true; mkCol 1 (mkTy 3 [20]) true false (Some (DLit s)) true] [] []].
+  [mkTable 0 [mkCol 0 (mkTy 0 []) false true None true; mkCol 1 (mkTy 3 [20]) true false (Some (DLit s)) true] [] [] []].
 Definition bad_defaults : list (list N) := [[40;97;41]; []; [105;116;39;115]].
 Theorem C06_quiet_refuted : exists g A, wf_schemab A = true /\ diff g (reflect_sqlite A) A <> [].
 Proof. exists (mkCfg true true), (bad_schema [40;97;41]). split; [reflexivity|]. vm_compute. discriminate. Qed.
@@ -40,16 +41,30 @@ Proof. vm_compute. reflexivity. Qed.
    f10; batch mode keeps named constraints in a dict, so the new f10 replaces the old one and the second comparison asks for f16. *)
 Definition fkname_A : schema :=
   [mkTable 1 [mkCol 0 (mkTy 0 []) false true None true; mkCol 1 (mkTy 0 []) true false None true; mkCol 2 (mkTy 0 []) true false None true] []
-             [mkFk 10 [2] 1 [0] no_opts true]].
+             [mkFk 10 [2] 1 [0] no_opts true] []].
 Definition fkname_B : schema :=
   [mkTable 1 [mkCol 0 (mkTy 0 []) false true None true; mkCol 1 (mkTy 0 []) true false None true; mkCol 2 (mkTy 0 []) true false None true] []
-             [mkFk 10 [2;1] 1 [1;0] no_opts true; mkFk 16 [2] 1 [0] no_opts true]].
+             [mkFk 10 [2;1] 1 [1;0] no_opts true; mkFk 16 [2] 1 [0] no_opts true] []].
 Theorem C06_converge_fkname_refuted : exists g A B, wf_schemab A = true /\ wf_schemab B = true /\ defaults_ok B = true /\
   diff g (reflect_sqlite (apply_ops (diff g (reflect_sqlite A) B) A)) B <> [].
 Proof. exists (mkCfg true true), fkname_A, fkname_B. repeat (split; [reflexivity|]). vm_compute. discriminate. Qed.
 Print Assumptions C06_converge_fkname_refuted.
 Example C06_fkname_class : fk_names_ok fkname_A fkname_B = false.
 Proof. vm_compute. reflexivity. Qed.
+
+(* what happens outside "all constraints named" (both facts replayed on the real code):
+   (a) an unnamed unique constraint that is only in the database is never dropped - the comparison is empty although database
+       and model differ;
+   (b) one pass is not enough when an unnamed model constraint's signature is carried by a NAMED database constraint that the
+       same pass changes: db k1 = UNIQUE(c1); model k1 = UNIQUE(c2) plus an unnamed UNIQUE(c1).  First pass: drop k1, add k1(c2)
+       (the unnamed one is "there", by signature); second pass: add the unnamed UNIQUE(c1). *)
+Definition uq_cols := [mkCol 0 (mkTy 0 []) false true None true; mkCol 1 (mkTy 0 []) true false None true; mkCol 2 (mkTy 0 []) true false None true].
+Example C06_unnamed_uq_outside :
+  diff (mkCfg true true) (reflect_sqlite [mkTable 0 uq_cols [] [] [mkUuq 900 [1]]]) [mkTable 0 uq_cols [] [] []] = [] /\
+  let A := [mkTable 0 uq_cols [Uq 1 [1]] [] []] in let B := [mkTable 0 uq_cols [Uq 1 [2]] [] [mkUuq 900 [1]]] in
+  wf_schemab A = true /\ wf_schemab B = true /\
+  diff (mkCfg true true) (reflect_sqlite (apply_ops (diff (mkCfg true true) (reflect_sqlite A) B) A)) B = [OpAddUUq 0 (mkUuq 900 [1])].
+Proof. vm_compute. auto. Qed.
 
 (* the decider applied to the implementation's outputs is sound for the property *)
 Theorem C06_decider_sound : forall i o, check_C06 i o = true -> C06_holds i o.
@@ -58,7 +73,7 @@ Print Assumptions C06_decider_sound.
 
 (* the model of a whole case (4 settings, quiet + converge in both rendering modes) satisfies the property *)
 Theorem C06_model_holds : forall i, inclass_C06 i = true -> C06_holds i (model_C06 i).
-Proof. intros i H. apply inclass_C06_wf in H. destruct H as [? [? [? [? ?]]]]. apply model_C06_holds; auto. Qed.
+Proof. intros i H. apply inclass_C06_wf in H. destruct H as [? [? [? [? [? [? ?]]]]]]. apply model_C06_holds; auto. Qed.
 Print Assumptions C06_model_holds.
 
 (* the hypotheses are satisfiable by a pair on which the comparison has real work to do: a column changes nullability, type
@@ -67,14 +82,14 @@ Print Assumptions C06_model_holds.
 Definition ex_A : schema :=
   [mkTable 0 [mkCol 0 (mkTy 0 []) false true None true; mkCol 1 (mkTy 3 [20]) true false (Some (DLit [53])) true;
               mkCol 2 (mkTy 5 [10;2]) true false None true; mkCol 4 (mkTy 0 []) true false (Some (DExpr [49;46;53])) true]
-             [Uq 1 [1]; Ix 2 [2;1] false] [mkFk 0 [2] 0 [0] no_opts true];
-   mkTable 1 [mkCol 0 (mkTy 0 []) false true None true] [] []].
+             [Uq 1 [1]; Ix 2 [2;1] false] [mkFk 0 [2] 0 [0] no_opts true] [];
+   mkTable 1 [mkCol 0 (mkTy 0 []) false true None true] [] [] []].
 Definition ex_B : schema :=
   [mkTable 0 [mkCol 0 (mkTy 0 []) false true None true; mkCol 1 (mkTy 4 []) false false (Some (DExpr [39;120;39])) true;
               mkCol 3 (mkTy 9 []) true false None true; mkCol 4 (mkTy 0 []) true false (Some (DExpr [40;49;46;53;41])) true]
-             [Ix 1 [1] true] [mkFk 1 [3] 0 [0] (mkFkOpts None (Some [99;97;115;99;97;100;101]) (Some true) (Some [68;101;102;101;114;114;101;100])) true];
+             [Ix 1 [1] true] [mkFk 1 [3] 0 [0] (mkFkOpts None (Some [99;97;115;99;97;100;101]) (Some true) (Some [68;101;102;101;114;114;101;100])) true] [];
    mkTable 2 [mkCol 0 (mkTy 0 []) false true None true; mkCol 1 (mkTy 1 []) true false (Some (DLit [97;32;98])) true] [Uq 20 [1]; Ix 21 [1;0] false]
-             [mkFk 20 [1;0] 0 [0;1] no_opts true]].
+             [mkFk 20 [1;0] 0 [0;1] no_opts true] []].
 Example C06_nonvacuous :
   inclass_C06 (ex_A, ex_B) = true /\ length (diff (mkCfg true true) (reflect_sqlite ex_A) ex_B) = 11%nat /\
   check_C06 (ex_A, ex_B) (model_C06 (ex_A, ex_B)) = true.
